@@ -244,7 +244,7 @@ def run(c, facts):
     c.floor(R0, 'pipeline-reachable functions', len(reach), 500)
     sites = r1_order_leak(c, facts, reach)
     calls = r2_nondet_sources(c, facts, reach)
-    c.floor('C06.R2', 'pipeline call sites scanned', calls, 3000)
+    c.floor('C06.R2', 'pipeline call sites scanned', calls, 2000)
     r3_no_globals(c, facts)
     # the HashMap-typed data that the pipeline holds: listed so a reviewer sees what R1 protects
     holders = set()
